@@ -41,6 +41,24 @@ pub assume_specification[ u32::pow ](b: u32, e: u32) -> (r: u32)
     ensures  r == vstd::arithmetic::power::pow(b as int, e as nat);
 } // mod vp_std
 pub use vp_std::*;
+/// `v.iter().position(|x| f(x))`: index of the first element the closure accepts (proved; the closure is the one in the source)
+pub fn vp_position<T, F: Fn(&T) -> bool>(v: &Vec<T>, f: F, Ghost(p): Ghost<spec_fn(T) -> bool>) -> (r: Option<usize>)
+    requires forall|i: int| 0 <= i < v@.len() ==> call_requires(f, (&#[trigger] v@[i],)), forall|x: T, ret: bool| call_ensures(f, (&x,), ret) ==> ret == p(x)
+    ensures
+        r is Some ==> r->Some_0 < v@.len() && p(v@[r->Some_0 as int]) && forall|j: int| 0 <= j < r->Some_0 ==> !p(#[trigger] v@[j]),
+        r is None ==> forall|j: int| 0 <= j < v@.len() ==> !p(#[trigger] v@[j])
+{
+    let mut i: usize = 0;
+    while i < v.len()
+        invariant i <= v@.len(), forall|k: int| 0 <= k < v@.len() ==> call_requires(f, (&#[trigger] v@[k],)), forall|x: T, ret: bool| call_ensures(f, (&x,), ret) ==> ret == p(x),
+            forall|j: int| 0 <= j < i ==> !p(#[trigger] v@[j])
+        decreases v@.len() - i
+    {
+        if f(&v[i]) { return Some(i); }
+        i += 1;
+    }
+    None
+}
 /// `&String == &str` (std's PartialEq<str> for String: same characters); Verus has no specification for it
 #[verifier::external_body]
 pub fn vp_str_eq(a: &String, b: &str) -> (r: bool)
